@@ -48,3 +48,10 @@ PROPS['C14']['ties'].append(dict(name='TIE-D importx refs', vh='importx', model=
                                  kinds=['C14'], case_head='importx', timeout=dict(quick=600, thorough=6000)))
 PROPS['C14']['explanation'] += (' Import path (the quantifier includes imports): the importx tie presents Import with NEW_TRANSACTION logs reusing a stored reference; model Ledger/Import.v:imp_commit '
                                 '(IEReference, no effect) = real stack, and the monitor requires the reference-conflict error kind.')
+
+# C11 on ledgers WITH schemas (Ledger/ImportSchema.v): per-log schema resolution of importLog
+PROPS['C11']['ties'].append(dict(name='TIE-D importx schemas', vh='importx', model='importx_schema', n=dict(quick=120, thorough=4000), args=dict(all=['-profile', 'schemas']),
+                                 kinds=['C11'], case_head='importx_schema', timeout=dict(quick=600, thorough=6000)))
+PROPS['C11']['rule'] = IMP_RULE + (' Schemas tie: source histories of the schemahist generator (schema inserts with chart default metadata and templates, writes with a known / unknown / no schema version, '
+                                   'strict 25% / audit 75%) followed in 65% of the cases by a directed tail (a schema giving users:$id a default, a versioned write, then un-versioned and versioned creates / '
+                                   'metadata-only writes on accounts that do not exist yet); export, import into a fresh ledger, 12 flags + schemas / log versions + complete copy compared with Ledger/ImportSchema.v.')
